@@ -96,6 +96,60 @@ func checkC03(c *core.Ctx) error {
 		c.Check(bad == "", "C03.R1", cons, "elements are skipped only through nullScalar()", pos,
 			"the iterator decides which elements to skip with "+bad+"(): an element whose value is zero but which carries derivatives is treated as a structural zero (derivatives are lost in conversions and products)")
 	})
+	// R1c: in skip()/Next() of the sparse iterators every removal of a stored entry (delete(values, i), index Delete) is
+	// reached only on the true edge of a condition that calls nullScalar() (for the Real types this is the only test that
+	// also looks at the derivatives)
+	core.EachFunc(pkg, func(_ *ast.File, fd *ast.FuncDecl) {
+		T := core.RecvTypeName(fd)
+		if (fd.Name.Name != "Next" && fd.Name.Name != "skip") || !strings.Contains(T, "Iterator") || !strings.HasPrefix(T, "Sparse") || strings.Contains(T, "Joint") || fd.Body == nil {
+			return
+		}
+		var dels []*ast.CallExpr
+		ast.Inspect(fd.Body, func(n ast.Node) bool {
+			if ce, ok := n.(*ast.CallExpr); ok {
+				if id, ok := ce.Fun.(*ast.Ident); ok && id.Name == "delete" {
+					dels = append(dels, ce)
+				} else if nm := calleeName(ce); nm == "indexDelete" || nm == "Delete" {
+					dels = append(dels, ce)
+				}
+			}
+			return true
+		})
+		if len(dels) == 0 {
+			return
+		}
+		g := core.NewFuncCFG(fd.Body, pkg.TypesInfo)
+		var conds []ast.Expr
+		for _, b := range g.G.Blocks {
+			if len(b.Succs) == 2 && len(b.Nodes) > 0 {
+				if e, ok := b.Nodes[len(b.Nodes)-1].(ast.Expr); ok {
+					has := false
+					ast.Inspect(e, func(n ast.Node) bool {
+						if ce, ok := n.(*ast.CallExpr); ok && calleeName(ce) == "nullScalar" {
+							has = true
+						}
+						return true
+					})
+					// only a conjunction (or the bare call) guarantees nullScalar() on the true edge
+					if has && !containsOr(e) && !containsNot(e) {
+						conds = append(conds, e)
+					}
+				}
+			}
+		}
+		cons := "(*" + T + ")." + fd.Name.Name
+		for _, d := range dels {
+			db, _ := g.BlockOf(d.Pos())
+			ok := false
+			for _, e := range conds {
+				if tb, _ := g.CondEdge(e); tb != nil && db != nil && g.Dominates(tb, db) {
+					ok = true
+				}
+			}
+			c.Check(ok, "C03.R1", cons, "entries are removed only when nullScalar() holds", d.Pos(),
+				"the removal "+types.ExprString(d)+" is not guarded by a nullScalar() test on the current element: an entry whose value is zero but which carries derivatives (or any non-null entry) can be dropped while iterating")
+		}
+	})
 	// R2
 	for _, jt := range jointIteratorTypes(pkg) {
 		checkMergeStep(c, pkg, "C03.R2", jt)
@@ -208,3 +262,25 @@ func checkC03(c *core.Ctx) error {
 }
 
 var _ = types.ExprString
+
+func containsOr(e ast.Expr) bool {
+	r := false
+	ast.Inspect(e, func(n ast.Node) bool {
+		if b, ok := n.(*ast.BinaryExpr); ok && b.Op == token.LOR {
+			r = true
+		}
+		return true
+	})
+	return r
+}
+
+func containsNot(e ast.Expr) bool {
+	r := false
+	ast.Inspect(e, func(n ast.Node) bool {
+		if u, ok := n.(*ast.UnaryExpr); ok && u.Op == token.NOT {
+			r = true
+		}
+		return true
+	})
+	return r
+}
